@@ -1604,3 +1604,97 @@ B('c04-counter-not-cleared', 'C04', 'R04.j', LOOP,
   "            self._loop_type = _LoopType.LIST")
 B('c04-cycle-full-turn-wrong', 'C04', 'R04.j', LOOP,
   "        code_gen.push(65536)", "        code_gen.push(65535)")
+
+# ------------------------------------------------------------------ round 4
+# / triage batch 2 rules (R08.h, R01.l, R04.k, R13.g, R16.h, R05.i, c23)
+CTRLLIGHT = 'bardolph/controller/light.py'
+WEBMOD = 'web/web_module.py'
+LIGHTMOD = 'bardolph/controller/light_module.py'
+
+B('c08-clear-queue-rebinds', 'C08', 'R08.h', JOBS,
+  "                self._queue.clear()", "                self._queue = collections.deque()")
+B('c20-clear-queue-rebinds', 'C20', 'R08.h', JOBS,
+  "                self._queue.clear()", "                self._queue = collections.deque()")
+N('c08-clear-queue-popleft-loop', 'C08', JOBS,
+  "                self._queue.clear()",
+  "                while len(self._queue) > 0:\n                    self._queue.pop()")
+B('c01-calc-incr-leaves-difference', 'C01', 'R01.l', LOOP,
+  "        code_gen.test_op(Operator.NOTEQ, LoopVar.COUNTER, 1)\n        marker = code_gen.if_true_start()\n        code_gen.subtract(LoopVar.LAST, LoopVar.FIRST)\n",
+  "        code_gen.subtract(LoopVar.LAST, LoopVar.FIRST)\n        code_gen.test_op(Operator.NOTEQ, LoopVar.COUNTER, 1)\n        marker = code_gen.if_true_start()\n")
+B('c01-calc-counter-extra-push', 'C01', 'R01.l', LOOP,
+  "        code_gen.plus_equals(LoopVar.COUNTER)\n        return True\n\n    @staticmethod\n    def _calc_incr",
+  "        code_gen.plus_equals(LoopVar.COUNTER)\n        code_gen.push(LoopVar.COUNTER)\n        return True\n\n    @staticmethod\n    def _calc_incr")
+B('c04-incr-guard-on-bounds', 'C04', 'R04.k', LOOP,
+  "        code_gen.test_op(Operator.NOTEQ, LoopVar.COUNTER, 1)\n        marker = code_gen.if_true_start()\n        code_gen.subtract(LoopVar.LAST, LoopVar.FIRST)",
+  "        code_gen.test_op(Operator.NOTEQ, LoopVar.LAST, LoopVar.FIRST)\n        marker = code_gen.if_true_start()\n        code_gen.subtract(LoopVar.LAST, LoopVar.FIRST)")
+B('c04-cycle-guard-removed', 'C04', 'R04.k', LOOP,
+  "        code_gen.test_op(Operator.NOTEQ, LoopVar.COUNTER, 0)\n        counter_marker = code_gen.if_true_start()\n", "        counter_marker = code_gen.if_true_start()\n")
+N('c04-incr-guard-as-eq-else', 'C04', LOOP,
+  """        code_gen.test_op(Operator.NOTEQ, LoopVar.COUNTER, 1)
+        marker = code_gen.if_true_start()
+        code_gen.subtract(LoopVar.LAST, LoopVar.FIRST)
+        code_gen.subtract(LoopVar.COUNTER, 1)
+        code_gen.add_list(
+            (OpCode.OP, Operator.DIV),
+            (OpCode.POP, LoopVar.INCR)
+        )
+        code_gen.if_else(marker)
+        code_gen.add_instruction(OpCode.MOVEQ, 0, LoopVar.INCR)
+        code_gen.if_end(marker)""",
+  """        code_gen.test_op(Operator.EQ, LoopVar.COUNTER, 1)
+        marker = code_gen.if_true_start()
+        code_gen.add_instruction(OpCode.MOVEQ, 0, LoopVar.INCR)
+        code_gen.if_else(marker)
+        code_gen.subtract(LoopVar.LAST, LoopVar.FIRST)
+        code_gen.subtract(LoopVar.COUNTER, 1)
+        code_gen.add_instruction(OpCode.OP, Operator.DIV)
+        code_gen.pop(LoopVar.INCR)
+        code_gen.if_end(marker)""")
+B('c13-sorted-by-lower', 'C13', 'R13.g', SORTED,
+  "                self.extend(sorted(initial))", "                self.extend(sorted(initial, key=str.lower))")
+B('c13-sorted-reversed', 'C13', 'R13.g', SORTED,
+  "                self.extend(sorted(initial))", "                self.extend(sorted(initial, reverse=True))")
+N('c13-sorted-explicit-defaults', 'C13', SORTED,
+  "                self.extend(sorted(initial))", "                self.extend(sorted(initial, key=None, reverse=False))")
+B('c16-time-pattern-blank-only', 'C16', 'R16.h', TIMEPAT,
+  "(?=(\\s|$))'", "(?=( |$))'")
+B('c16-time-pattern-blank-tab', 'C16', 'R16.h', TIMEPAT,
+  "(?=(\\s|$))'", "(?=([ \\t]|$))'")
+N('c16-time-pattern-class-form', 'C16', TIMEPAT,
+  "(?=(\\s|$))'", "(?=([\\s]|$))'")
+B('c05-exit-matrix-leaves-routine', 'C05', 'R05.i', CONTEXT,
+  "    def exit_matrix(self) -> None:\n        self._in_matrix = False\n        self._locals.clear()",
+  "    def exit_matrix(self) -> None:\n        self._in_matrix = False\n        self.exit_routine()")
+B('c12-light-birth-not-stored', 'C13', 'R12.k', CTRLLIGHT,
+  "        self._birth = time.time()\n", "")
+B('c12-impl-not-stored', 'C12', 'R12.k', LANLIGHT,
+  "        self._impl = impl\n", "        pass\n")
+B('c20-scripts-only-with-manifest', 'C20', 'R20.l', WEBAPP,
+  "        self._scripts = {}\n        self._jobs", "        self._jobs")
+B('c20-icon-not-stored', 'C20', 'R20.l', WEBAPP,
+  "        self.icon = icon\n", "")
+B('c18-brief-not-stored', 'C18', 'R18.e', SNAPSHOT,
+  "        self._brief = False\n", "")
+B('c06-time-pattern-repr-not-stored', 'C06', 'R06.n', TIMEPAT,
+  "        self._repr = 'TimePattern(\"{}\", \"{}\")'.format(hours, minutes)\n", "")
+B('c01-register-time-starts-at-one', 'C01', 'R01.m', MACHINE,
+  "        self.time = 0.0  # ms.", "        self.time = 1.0  # ms.")
+B('c19-register-first-zone-missing', 'C19', 'R01.m', MACHINE,
+  "        self.first_zone = 0\n", "")
+N('c01-register-int-zero', 'C01', MACHINE,
+  "        self.time = 0.0  # ms.", "        self.time = 0")
+B('c20-script-path-key-swapped', 'C20', 'R20.m', WEBAPP,
+  'settings.get_value("script_path", "."), script_control.file_name)', 'settings.get_value(".", "script_path"), script_control.file_name)')
+B('c20-scripts-get-swapped', 'C20', 'R20.m', WEBAPP,
+  "    def get_script_control(self, path) -> ScriptControl:\n        script_control = self._scripts.get(path, None)",
+  "    def get_script_control(self, path) -> ScriptControl:\n        script_control = self._scripts.get(None, path)")
+B('c12-features-get-swapped', 'C12', 'R12.l', LANAPI,
+  "features.get('multizone', False)", "features.get(False, 'multizone')")
+B('c15-tile-width-get-swapped', 'C15', 'R12.l', LANLIGHT,
+  "tile.get('width', 0)", "tile.get(0, 'width')")
+B('c20-runtime-not-bound', 'C20', 'R20.n', WEBMOD,
+  "    runtime_module.configure()\n", "")
+B('c20-lights-not-bound', 'C20', 'R20.n', WEBMOD,
+  "    light_module.configure()\n", "")
+B('c01-light-set-not-bound', 'C01', 'R01.n', LIGHTMOD,
+  "    light_set.configure()\n", "    pass\n")
